@@ -235,6 +235,13 @@ def _mk_prefetch(single, cfe):
             Variant(tag + ',items', params={'with_key': 'true'}, generator=True, on_yield=oyk, post=pok,
                     requires=None if single else req, hooks=parallel_hooks(), props=('C03',),
                     inline=('_single_thread_prefetch', 'keys')),
+            # C04 quantifies over "value and key iteration": when the input offers keys (items), key iteration behind
+            # prefetch delivers the sequential pairs -- it may not refuse (C03 alone would allow a loud refusal)
+            Variant(tag + ',items-delivered', params={'with_key': 'true'}, generator=True, on_yield=oyk,
+                    post=_prefetch_plain_clauses(True, not single)[1],
+                    requires=(lambda S: smt.ITEMS(F(S)['input_dataset'].t)) if single
+                    else (lambda S: z3.And(smt.IDX(F(S)['input_dataset'].t), smt.KEYS(F(S)['input_dataset'].t), smt.ITEMS(F(S)['input_dataset'].t))),
+                    hooks=parallel_hooks(), props=('C04',), inline=('_single_thread_prefetch', 'keys')),
         ]
         ms['__len__'] = [Variant(tag, post=post_len(self_view), props=('C02', 'C04'))]
         ms['copy'] = copy_variants()
